@@ -11,7 +11,7 @@ import time
 from core import (BIN, Infra, build_harness, goenv, parse_hist_lines, run, rundir, save_replay, scratch_dir, seed, spec_copy, split_known, tier, tla_set,
                   tlc, write_cfg, write_evidence)
 
-ALL = ["mint", "send", "sendlocked", "receive", "melt", "checkmelt", "reclaim", "removespent", "mintswap", "rotate", "restore"]
+ALL = ["sendhtlc", "mint", "send", "sendlocked", "receive", "melt", "checkmelt", "reclaim", "removespent", "mintswap", "rotate", "restore"]
 
 
 def generate(sd, num, max_ops, profile, fees, two_mints=True, mint_amts=(5, 21, 64, 100, 333)):
@@ -128,6 +128,14 @@ def directed():
                "ops": [{"op": "mint", "w": "w1", "m": "ma", "amt": 64}, {"op": "sendlocked", "w": "w1", "m": "ma", "amt": 2, "to": "w3", "sigall": True},
                        {"op": "receive", "w": "w3", "tok": "t1", "swap": True}, {"op": "reclaim", "w": "w3"},
                        {"op": "sendlocked", "w": "w1", "m": "ma", "amt": 9, "to": "w3", "sigall": True}, {"op": "receive", "w": "w3", "tok": "t2", "swap": True}]})
+    # hash-locked tokens (with and without a recipient key), redeemed, then more output-creating operations at the same mint
+    for fee in (0, 100):
+        ops = [{"op": "mint", "w": "w1", "m": "ma", "amt": 64}, {"op": "sendhtlc", "w": "w1", "m": "ma", "amt": 8}, {"op": "sendhtlc", "w": "w1", "m": "ma", "amt": 8, "to": "w2"},
+               {"op": "sendhtlc", "w": "w1", "m": "ma", "amt": 1, "fees": True}, {"op": "sendhtlc", "w": "w1", "m": "ma", "amt": 13, "to": "w3", "fees": True},
+               {"op": "receive", "w": "w2", "tok": "t1"}, {"op": "mint", "w": "w2", "m": "ma", "amt": 5}, {"op": "receive", "w": "w2", "tok": "t2"},
+               {"op": "send", "w": "w2", "m": "ma", "amt": 3}, {"op": "receive", "w": "w3", "tok": "t3"}, {"op": "receive", "w": "w3", "tok": "t4"},
+               {"op": "mint", "w": "w3", "m": "ma", "amt": 5}, {"op": "restore", "w": "w2"}, {"op": "restore", "w": "w3"}]
+        hs.append({"mints": [{"name": "ma", "fee": fee, "policy": "min1"}, {"name": "mb", "fee": 0, "policy": "min1"}], "wallets": ws, "ops": ops})
     # mint-to-mint swaps (MintSwap, receive with swap to the trusted mint) whose Lightning payment fails, errs or stays in flight;
     # then reclaim / remove-spent and a restore
     for fee in (0, 100):
